@@ -31,3 +31,7 @@ package expr
 //@   requires wrapped_is_ptile: isType(wrapped, "*expr.ptile") || isType(wrapped, "*expr.ptileOptimized")
 //@   modifies *
 //@   nopanic own
+
+//@ interface Expr.Shift
+//@   params this
+//@   pure
